@@ -184,6 +184,12 @@ def write_evidence(
             for p in parts
         ],
     }
+    obligations = sum(p.counters.get("obligations", 0) for p in parts)
+    if obligations:
+        cov["obligations"] = obligations
+        cov["discharged"] = sum(p.counters.get("discharged", 0) for p in parts)
+        cov["checker_cmd"] = "tlapm --toolbox 0 0 spec/SliceThenProof.tla"
+        cov["trusted_base"] = ["tlapm 1.6.0-pre with its SMT backend", "TLC for the tie between the proved definitions and RA_Ops!SliceThen"]
     if extra:
         cov.update(extra)
     ev = {
